@@ -8,7 +8,7 @@ from ..pattern import pmatch, pfind, pall
 from ..absval import Lin, Undecided, linform
 from ..core import (alpha, AnalysisError, call_name, dotted, is_const, kwarg, local_defs, norm, origin, parent_map,
                     walk_local)
-from ..facts import guards_of, returns_of, enclosing_loops, default_of
+from ..facts import if_leaves, guards_of, returns_of, enclosing_loops, default_of
 from ..rules.memo import id_calls, memo_sites
 
 BR = "synkit/Synthesis/Reactor/batch_reactor.py"
@@ -187,8 +187,8 @@ def agreement(rep, sites):
     flat = origin(defs, ast.Name(id=rm["flat"], ctx=ast.Load())) if rm else None
     fm = pmatch("[$x for $sub in $nested for $x in $sub]", flat) if flat is not None else None
     # the concatenated list is the one both branches assign
-    ok = fm is not None and bool(serial) and any(d_.value is serial[0] for d_ in defs.get(fm["nested"], [])) and \
-        bool(pcs) and any(d_.value is pcs[0][1] for d_ in defs.get(fm["nested"], []))
+    nested_srcs = [leaf for d_ in defs.get(fm["nested"], []) if d_.value is not None for leaf in if_leaves(d_.value)] if fm else []
+    ok = fm is not None and bool(serial) and any(x is serial[0] for x in nested_srcs) and bool(pcs) and any(x is pcs[0][1] for x in nested_srcs)
     rep.ob("O14.3", "R8", fi, ok, flat if flat is not None else "flat", "per-rule results are concatenated in rule order")
     ok = rm is not None
     rep.ob("O14.3", "R8", fi, ok, rets[-1] if rets else "return", "the result is the concatenation, optionally de-duplicated in order")
@@ -347,7 +347,7 @@ def batching(rep):
     pm = parent_map(ft.node)
     d = local_defs(ft.node)
     bl = [l for l in walk_local(ft.node) if isinstance(l, ast.For) and isinstance(l.iter, ast.Name) and
-          any(d_.kind == "assign" and isinstance(d_.value, ast.Call) and call_name(d_.value) == "batch_dicts" for d_ in d.get(l.iter.id, []))]
+          any(d_.kind == "assign" and any(isinstance(x, ast.Call) and call_name(x) == "batch_dicts" for x in if_leaves(d_.value)) for d_ in d.get(l.iter.id, []))]
     rep.need("BATCH", len(bl), 1, "batch loop in BatchCluster.fit")
     lp = bl[0]
     frets = returns_of(ft.node)
